@@ -1580,3 +1580,111 @@ def check_C19(ck):
         "samples": [{"name": n_, "script": ls[:4]} for n_, ls in scripts[:2]],
     })
     ck.assumptions = ["std::regex is modelled by an equivalent hand-written scanner", "the compile check of the emitted declarations is part of the thorough tier"]
+
+
+# ----------------------------------------------------------------------------------------------------
+# C20 use_definitions (generated programs)
+
+def check_C20(ck):
+    import hprog
+    rng = random.Random(repr((ck.seed, "C20")))
+    cases = [(1, 1, []), (2, 3, [(0, 1)]), (3, 3, [(0, 0), (1, 1), (2, 2)]), (4, 2, [])]
+    for _ in range(tier_n(ck, 5, 24)):
+        nl, nr = rng.randint(1, 7), rng.randint(1, 7)
+        holes = sorted({(rng.randrange(nl), rng.randrange(nr)) for _ in range(rng.randint(0, nl * nr // 2))})
+        cases.append((nl, nr, holes))
+    # both sides of the 512-element split of aggregate
+    big = [(23, 23, [(0, 0), (22, 22), (11, 5)])] if ck.tier == "quick" else [(22, 23, []), (23, 23, [(3, 4)]), (24, 22, [(0, 0)]), (32, 33, [(31, 32), (7, 7)])]
+    cases += big
+    programs = [("ud%d" % i, hprog.prog_use_definitions(nl, nr, holes)) for i, (nl, nr, holes) in enumerate(cases)]
+    res = hprog.build_and_run(programs, jobs=16)
+    scripts = [("ud%d" % i, ["use-defs %d %d %s" % (nl, nr, " ".join("%d:%d" % h for h in holes))]) for i, (nl, nr, holes) in enumerate(cases)]
+    model = verif.run_model(scripts)
+    bad = 0
+    for (name, lines), (nl, nr, holes) in zip(scripts, cases):
+        rc, so, se = res[name]
+        got = so.splitlines()
+        want = model.get(name, [])
+        if rc != 0 or got != want:
+            bad += 1
+            if not ck.violations:
+                # the specification directly: registered = product minus holes, each once
+                exp_reg = sorted((i, j) for i in range(nl) for j in range(nr) if (i, j) not in holes)
+                reg_line = [l for l in got if l.startswith("registered")]
+                got_reg = sorted(tuple(int(x) for x in t.split(":")) for t in reg_line[0].split()[1:]) if reg_line else None
+                found = rc is not None and got_reg != exp_reg
+                path = verif.write_replay("C20", name, {
+                    "property": "C20", "kind": ("failing input: use_definitions did not register exactly the defined combinations" if found else
+                                                "correspondence broken: generated program and model differ (or the program does not compile / crashed)"),
+                    "lists": [nl, nr], "not_defined": holes, "program_output": got[:3], "model": want[:3], "rc": rc, "stderr": se[-1500:],
+                    "program": "tools/hprog.py prog_use_definitions(%d, %d, %r)" % (nl, nr, holes)})
+                ck.violation(path, found)
+    ck.coverage = proof_coverage(ck, ["C20"], {
+        "evaluations": len(cases), "distinct_nontrivial": len({repr(c) for c in cases if c[0] * c[1] > 1}),
+        "programs": len(cases), "disagreements_checked": bad,
+        "rule": "generated programs: a 2-method over Base with leaf classes L<i>, R<j>, a definition template specialised to not_defined on a random subset, "
+                "use_definitions over product<types<M>, Ls, Rs>; the program prints the compile-time product in order, the definitions found in the method's "
+                "catalog and the result of dispatching through every combination; the model predicts all three. Sizes 1..7 per list plus products on both sides of the 512 split",
+        "largest_product": max(c[0] * c[1] for c in cases),
+        "traces_validated_against_impl": len(cases),
+        "samples": [{"lists": [c[0], c[1]], "not_defined": c[2]} for c in cases[:3]],
+    })
+    ck.assumptions = ["the model of boost::mp11::mp_product / mp_copy_if / std::tuple is hand-written; the generated programs tie it to the compiler",
+                      "std::tuple construction order (hence registration order) is unspecified: registrations are compared as sorted lists"]
+
+
+check_C20.needs_hdyn = False
+
+
+# ----------------------------------------------------------------------------------------------------
+# C16 concurrency (TSan harness + write-effect table of the call path)
+
+def check_C16(ck):
+    import hprog
+    src = open(os.path.join(verif.VERIF, "harness", "tsan", "tsan.cpp")).read()
+    inc = os.path.join(verif.REPO, "include")
+    out_dir = os.path.join(verif.CACHE, "tsan")
+    os.makedirs(out_dir, exist_ok=True)
+    compilers = ["g++"] if ck.tier == "quick" else ["g++", "clang++-14"]
+    runs = []
+    for comp in compilers:
+        exe = os.path.join(out_dir, "tsan-" + comp.replace("+", "p"))
+        b = verif.sh([comp, "-std=c++17", "-O1", "-g", "-fsanitize=thread", "-I" + inc, os.path.join(verif.VERIF, "harness", "tsan", "tsan.cpp"), "-o", exe, "-lpthread"])
+        if b.returncode != 0:
+            path = verif.write_replay("C16", "tsan-build", {"property": "C16", "kind": "the thread harness does not build against the current tree", "errors": b.stderr[-3000:]})
+            ck.violation(path, False)
+            continue
+        for threads, iters in ([(8, 3000), (16, 1500)] if ck.tier == "quick" else [(8, 20000), (16, 20000), (32, 5000), (3, 50000)]):
+            env = dict(os.environ)
+            env["TSAN_OPTIONS"] = "exitcode=66:halt_on_error=0"
+            r = verif.sh([exe, str(threads), str(iters)], env=env)
+            races = r.stderr.count("WARNING: ThreadSanitizer: data race")
+            ok = r.returncode == 0 and "bad=0" in r.stdout and "ThreadSanitizer" not in r.stderr
+            runs.append({"compiler": comp, "threads": threads + 1, "iterations": iters, "rc": r.returncode, "stdout": r.stdout.strip(), "tsan_reports": races})
+            if not ok and not any(f for _, f in ck.violations):
+                first = r.stderr[r.stderr.find("WARNING: ThreadSanitizer"):][:2500] if "ThreadSanitizer" in r.stderr else r.stderr[-1500:]
+                path = verif.write_replay("C16", "tsan-%s-%d" % (comp.replace("+", "p"), threads), {
+                    "property": "C16", "kind": "failing schedule: ThreadSanitizer reported a data race or a thread saw a result different from the sequential one",
+                    "command": "%s %d %d   (TSAN_OPTIONS=%s)" % (exe, threads, iters, env["TSAN_OPTIONS"]), "stdout": r.stdout, "report": first})
+                ck.violation(path, True)
+    eff = []
+    try:
+        txt = open(os.path.join(verif.LEAN, "Yomm2", "Generated", "CallPath.lean")).read()
+        eff = re.findall(r'\("([^"]+)", "([^"]+)", "([^"]+)"\)', txt)
+    except OSError:
+        pass
+    ck.coverage = proof_coverage(ck, ["C16"], {
+        "evaluations": len(runs), "distinct_nontrivial": len(runs),
+        "rule": "harness/tsan/tsan.cpp built with -fsanitize=thread: N threads x four policies (release-like hash, checked hash, v-table pointer map, "
+                "indirect v-table pointers) dispatching through references, virtual_ptr (constructed, copied, final), virtual_shared_ptr and resolve(), "
+                "while another thread updates a fifth policy 40 times; a TSan report or a per-thread result different from the sequential one is a "
+                "violation. Every run is non-trivial (>= 4 threads on shared tables). The write-effect table of the call path is re-extracted from clang's AST and checked by the kernel",
+        "runs": runs, "call_path_effects": [list(e) for e in eff], "traces_validated_against_impl": len(runs),
+        "samples": runs[:1],
+    })
+    ck.assumptions = ["data-race freedom of the real binary under the C++ memory model cannot be exhibited by the Lean model: it is observed by TSan on the schedules that occurred",
+                      "the AST extractor sees the functions instantiated by harness/tsan/tsan.cpp; writes through pointers passed in by the caller would be classified by their root expression",
+                      "libstdc++'s unordered_map::operator[] does not write when the key is present (not guaranteed by the standard)"]
+
+
+check_C16.needs_hdyn = False
